@@ -81,6 +81,10 @@ CLAIMED = {
   "Deductive proof about packed scalar values: (1) the fixed-size Encoder/Decoder primitives of util/pack (Put1/2/4, Put, PutStr, Uint16/Uint32/Int32 and their decoders) against exact byte-level contracts incl. capacity, frame and big-endian round-trip/order lemmas; (2) SuDnum.PackSize equals the number of bytes SuDnum.Pack writes (no buffer overrun), Pack writes exactly tag, exponent byte and the base-100 digit pairs of the coefficient with trailing zero pairs dropped and every byte complemented for negative numbers (10 byte-level post-conditions), unpackDnum rebuilds sign/exponent/coefficient from those bytes, with lemmas that the pairs are in 0..99, recombine to the coefficient and that dropped pairs are zero (so unpack inverts pack); (3) ORDER: three lemmas over the proved byte functions show that the byte order of packed decimals equals the decimal order for all non-negative pairs, all mixed-sign pairs and all negative pairs except the prefix class below; (4) packSizeInt against a digit-level definition for all int64 (three loops completely unrolled, unwinding obligations discharged); (5) SuBool, SuStr, SuDate, SuTimestamp Pack/PackSize byte-exact, UnpackDate/UnpackTimestamp inverse on those bytes.",
   "KNOWN FINDING (genuine defect, not repaired, see known_findings.jsonl and findings/C13-negative-prefix-order): two negative numbers whose digit-pair strings are a proper prefix of one another (-12 vs -12.5, -1200 vs -1234) pack in the reverse of their value order; indexes on negative numbers are mis-sorted and range queries return wrong rows. NOT covered: packInt's bytes (only its size; the obligations did not discharge), hence 'equal scalars pack to identical bytes' between SuInt64 and SuDnum is not proved; unpackInt/intable; objects/records (nesting, PackSize2 stack); the value-level composition Unpack(Pack(v)).Equal(v) is argued from the byte-level contracts, not stated as one theorem. Sequential semantics; hacks.BStoS assumed.",
   "DESIGN.md §0.3 C13"),
+ "C16": (
+  "Deductive proof of the layer-list algebra that the background merge and persist steps are built from: Overlay.UpdateWith (commit) yields exactly the latest layers followed by the transaction's layer, on the latest btree; WithMerged replaces exactly the first 1+n layers by the merge result and keeps the remaining layers in order; WithSaved replaces the base layer by a fresh empty one on the new btree and keeps the rest in order; Mutable; Overlay.Lookup returns what the NEWEST layer that mentions the key says (own mutable layer, then committed layers newest first; a tombstone hides the key, the update flag is stripped) and falls back to the stored btree only when no layer mentions it (loop invariant + variant). Statistics: MergeUpdate.Apply1 replaces the first 1+n per-layer deltas by one (exact sums for n = 0, 1; overflow-free), PersistUpdate.Apply1 folds the base delta into the stored counts exactly and resets it, both keep the remaining deltas in order; every one of these returns fresh slices/objects and provably does not write the previous layer or delta slices (frame obligations), which older states still share.",
+  "Scope: the per-call algebra only. NOT covered: that the merged index buffer equals the sequential application of its inputs (ixbuf.Merge, see C11: only Combine and the pass-through guard), btree.MergeAndSave, Meta.LayeredOnto / Apply over the persistent hash trie (hamt) and the exact delta sum for n > 1 (would need recursive spec functions), the scheduling of merge/persist against concurrent commits (UpdateState, merger, checker) - i.e. the property's quantifier over schedules is argued from these per-call facts, not machine-checked. Per-layer lookups are named by uninterpreted functions (ixbuf.Lookup 'defines' its result; the btree lookup is assumed). slc.With/slc.Clone assumed library contracts.",
+  "DESIGN.md §0.3 C16"),
  "C18": (
   "Deductive proof (64-bit bit-vector arithmetic, exact) of the allocation arithmetic of Stor: Alloc returns offset = new size - n, i.e. the window [old size', old size'+n) of the atomically advanced size counter, never straddling a chunk boundary (when the advance would straddle, extend() moves the counter to the start of the next chunk and Alloc retries), the returned slice has exactly len = cap = n and starts at chunk[offset & (chunksize-1)] of chunk offset>>shift; Data/offsetToChunk proved against those definitions incl. bounds; extend keeps previously published chunks and publishes one fresh chunk; the representation invariant (chunksize = 2^shift, chunks value is a [][]byte whose entries have chunksize bytes, size within mapped chunks) is preserved.",
   "sync/atomic operations are modelled as sequential steps with their documented effects (assumed library contracts); each Alloc is verified as if it ran alone; the concurrent half of the property is carried by machine-checked interference (guarantee) clauses that are obliged across EVERY atomic write of Alloc and extend - allocChunk moves by at most one, a chunk is published only after it is in the table and without touching size, size is only rewound beyond every published chunk, the table only grows - while the step from these guarantees plus atomicity of Uint64.Add (distinct Add results => disjoint windows) to 'no two concurrent allocations overlap' is argued by hand, not machine-checked; the retry loop is unrolled 3 times with an unwinding obligation under a sequential schedule. storage.Get is an assumed interface contract (fresh chunk of the configured size). Bounds assumed: shift < 40, chunk count < 999999. Memory-mapped files and FlushTo/Close not covered.",
